@@ -373,6 +373,12 @@ func (blockchain *Blockchain) BeginBlock(req abciTypes.RequestBeginBlock) abciTy
 				blockchain.stateDeliver.Accounts.AddBalance(item.Address, item.Coin, amount)
 			} else {
 				moveTo := blockchain.stateDeliver.Candidates.PubKey(item.GetMoveToCandidateID())
+				if blockchain.stateDeliver.Candidates.GetCandidate(moveTo) == nil {
+					// the target candidate was removed while the move was in flight: the coins are unbonded
+					// like the stakes of a removed candidate instead of being delegated to nobody
+					blockchain.stateDeliver.FrozenFunds.AddFund(height+types.GetUnbondPeriod(), item.Address, item.CandidateKey, item.CandidateID, item.Coin, amount, 0)
+					continue
+				}
 				blockchain.eventsDB.AddEvent(&eventsdb.StakeMoveEvent{
 					Address:           item.Address,
 					Amount:            amount.String(),
